@@ -186,6 +186,14 @@ def dft(case, ctx):
     if int(sel.sum()) <= 1:
         ctx.tag("back_skipped_single_sample_window")
         return
+    bsup = case["back"]["amp"] != 0
+    if not bsup.any():
+        ctx.tag("back_skipped_opaque_image_plane")
+        return
+    bb = gen.bbox(bsup)
+    if (bb[1] - bb[0] + 1) * (bb[3] - bb[2] + 1) == 1:
+        ctx.tag("back_skipped_single_sample_image_plane")     # one-element phasor = infinite constant (known, C03)
+        return
     # --- second leg: image plane amplitude, then image -> pupil --------------------------
     b = case["back"]
     img_model = (ref * sel).astype(rdft.CLD) * b["amp"]
